@@ -422,7 +422,8 @@ def rule_abort_sequence(prog, res, rule="R-ABORT-SEQ"):
     for name, pred, why in reqs:
         ok = True
         for t in valid_starts:
-            o, w = paths.all_paths_pass(f, (t, -1), {(head, 0)} if f.blocks[head].stmts else set(stops), pred)
+            o, w = paths.all_paths_pass(f, (t, -1), {(head, 0)} if f.blocks[head].stmts else set(stops),
+                                        paths.through_callees(prog, f, pred))
             ok = ok and o
         inst = "acquire_abort: every valid stream gets %s" % name
         if ok:
@@ -438,7 +439,7 @@ def rule_thread_exit(prog, res, rule="R-THREAD-EXIT"):
         f = prog.func(tname)
         res.touched(f)
         for fld in ("is_running", "is_stopping"):
-            ok, wit = paths.all_paths_pass(f, "entry", "exit", stores_const(fld, 0))
+            ok, wit = paths.all_paths_pass(f, "entry", "exit", paths.through_callees(prog, f, stores_const(fld, 0)))
             inst = "%s clears %s on every exit" % (tname, fld)
             if ok:
                 res.oblige(rule, inst, True, "", f.loc())
@@ -449,20 +450,20 @@ def rule_thread_exit(prog, res, rule="R-THREAD-EXIT"):
                                                                    "the next acquisition's worker sees a stale stop request"),
                          {"path_blocks": wit})
     f = prog.func("video_source_thread")
-    ok, wit = paths.all_paths_pass(f, "entry", "exit", has_call("camera_stop"))
+    ok, wit = paths.all_paths_pass(f, "entry", "exit", paths.through_callees(prog, f, has_call("camera_stop")))
     inst = "video_source_thread stops the camera on every exit"
     (res.oblige(rule, inst, True, "", f.loc()) if ok else
      res.fail(rule, inst, "%s|video_source_thread|camera_stop" % rule, f.loc(),
               "video_source_thread can exit without camera_stop: the camera keeps streaming", {"path_blocks": wit}))
     for sig in ("sig_stop_filter", "sig_stop_sink"):
-        ok, wit = paths.all_paths_pass(f, "entry", "exit", indirect_call(sig))
+        ok, wit = paths.all_paths_pass(f, "entry", "exit", paths.through_callees(prog, f, indirect_call(sig)))
         inst = "video_source_thread signals %s on every exit" % sig
         (res.oblige(rule, inst, True, "", f.loc()) if ok else
          res.fail(rule, inst, "%s|video_source_thread|%s" % (rule, sig), f.loc(),
                   "video_source_thread can exit without %s: the downstream worker never finishes and acquire_stop blocks in thread_join" % sig,
                   {"path_blocks": wit}))
     g = prog.func("video_sink_thread")
-    ok, wit = paths.all_paths_pass(g, "entry", "exit", has_call("storage_stop"))
+    ok, wit = paths.all_paths_pass(g, "entry", "exit", paths.through_callees(prog, g, has_call("storage_stop")))
     inst = "video_sink_thread stops the storage on every exit"
     (res.oblige(rule, inst, True, "", g.loc()) if ok else
      res.fail(rule, inst, "%s|video_sink_thread|storage_stop" % rule, g.loc(),
@@ -480,7 +481,7 @@ def rule_start_reset(prog, res, rule="R-START-RESET"):
         if not tcs:
             raise AnalysisBroken("%s no longer creates its thread" % sname)
         for fld, val in (("is_stopping", 0), ("is_running", 1)):
-            ok, wit = paths.all_paths_pass(f, "entry", tcs, stores_const(fld, val))
+            ok, wit = paths.all_paths_pass(f, "entry", tcs, paths.through_callees(prog, f, stores_const(fld, val)))
             inst = "%s: %s = %d before thread_create" % (sname, fld, val)
             if ok:
                 res.oblige(rule, inst, True, "", f.loc())
@@ -525,7 +526,7 @@ def rule_sink_error_path(prog, res, rule="R-SINK-ERROR"):
                 ("channel_read_unmap", has_call("channel_read_unmap"), "the sink's reader stays mapped: the next acquisition's first map discards data"),
                 ("storage_stop", has_call("storage_stop"), "the storage is never stopped"),
                 ("is_running = 0", stores_const("is_running", 0), "the runtime keeps reporting Running")):
-            ok, wit = paths.all_paths_pass(f, (fail_t, -1), "exit", pred)
+            ok, wit = paths.all_paths_pass(f, (fail_t, -1), "exit", paths.through_callees(prog, f, pred))
             inst = "video_sink_thread: failed append (line %s) -> %s" % (line, name)
             if ok:
                 res.oblige(rule, inst, True, "", f.loc(s))
@@ -558,7 +559,7 @@ def rule_source_error_path(prog, res, rule="R-SOURCE-ERROR"):
                      "after camera_get_frame failed the source can still commit the mapped region or ask for more frames")
         for name, pred in (("sig_stop_filter", indirect_call("sig_stop_filter")), ("sig_stop_sink", indirect_call("sig_stop_sink")),
                            ("camera_stop", has_call("camera_stop")), ("is_running = 0", stores_const("is_running", 0))):
-            ok, wit = paths.all_paths_pass(f, (fail_t, -1), "exit", pred)
+            ok, wit = paths.all_paths_pass(f, (fail_t, -1), "exit", paths.through_callees(prog, f, pred))
             inst = "video_source_thread: failed frame call -> %s" % name
             if ok:
                 res.oblige(rule, inst, True, "", f.loc(s))
